@@ -81,6 +81,10 @@ func replay(prop, file string) int {
 	}
 
 	f, ok := checks.Replayers[prop]
+	if doc.Replay["op"] == "faulthist" {
+		f, ok = checks.ReplayFaultHist, true
+	}
+
 	if !ok {
 		fmt.Fprintln(os.Stderr, "no replayer for", prop)
 		return 2
